@@ -1,5 +1,7 @@
 import LapyVerif.Props.C07b
 import LapyVerif.Bridge.Fem
+import LapyVerif.Bridge.Spectral2
+import LapyVerif.Bridge.VertexMeasures
 /- axiom audit of C07 -/
 #print axioms LapyVerif.Props.C07.form_heatMat
 #print axioms LapyVerif.Props.C07.form_one_eq_sum_rows
@@ -20,3 +22,8 @@ import LapyVerif.Bridge.Fem
 #print axioms LapyVerif.Props.C07.heat_conservation_aniso
 #print axioms LapyVerif.Props.C17.stiffAniso_symm
 #print axioms LapyVerif.Props.C17.stiffAniso_const_zero
+#print axioms LapyVerif.Bridge.heat_kernel
+#print axioms LapyVerif.Bridge.heat_kernel_scalar
+#print axioms LapyVerif.Bridge.heat_diagonal
+#print axioms LapyVerif.Bridge.misc_tetavg
+#print axioms LapyVerif.Bridge.vm_avg
